@@ -129,6 +129,7 @@ def ops : CryptoOps where
   unwrap := unwrap H
   pubOf := pubOf H
   validPriv := fun v => (privExp H v).isSome
+  privOfSeed := privOfSeed H
   hmac := fun k m => H (k ++ m)   -- placeholder for the generic instance; `shimOps` overrides it
   sha256 := H
 
